@@ -61,7 +61,15 @@ func (n *plainNode) Process(ctx context.Context, e *eventlogger.Event) (*eventlo
 	}
 	return e, nil
 }
-func (n *plainNode) Reopen() error              { return nil }
+func (n *plainNode) Reopen() error {
+	if n.obj%3 == 0 {
+		return errPlainReopen // several nodes of several event types fail in the same Reopen
+	}
+	return nil
+}
+
+var errPlainReopen = errors.New("reopen failed")
+
 func (n *plainNode) Type() eventlogger.NodeType { return n.typ }
 func (n *plainNode) Close(ctx context.Context) error {
 	atomic.AddInt64(&n.closes, 1)
